@@ -408,6 +408,11 @@ func TestVerifC17RbfMulti(t *testing.T) {
 	for _, x := range c17Legacy {
 		types[x.name] = x.t
 	}
+	// taproot channels: both machines get the MuSig2 sessions peer.Brontide gives them (c17Musig = the harness
+	// copy of peer.MusigChanCloser) and the closee nonces the two shutdown messages would have exchanged
+	for _, x := range c17Taproot {
+		types[x.name] = x.t
+	}
 	bit := func(b bool) int {
 		if b {
 			return 1
@@ -461,7 +466,7 @@ func TestVerifC17RbfMulti(t *testing.T) {
 			}
 		}
 		out.Emit(verifkit.Rec{"a": "Reset", "kind": "tx", "type": evs[0].Type, "file": filepath.Base(f),
-			"opener": opener, "anchors": bit(ctype.HasAnchors()), "taproot": 0,
+			"opener": opener, "anchors": bit(ctype.HasAnchors()), "taproot": bit(ctype.IsTaproot()),
 			"cap": int64(alice.State().Capacity), "dust": dust, "view": views()})
 
 		// three delivery scripts per party (p2wpkh, p2wsh, p2tr)
@@ -495,6 +500,22 @@ func TestVerifC17RbfMulti(t *testing.T) {
 			evs = evs[1:]
 		}
 
+		// taproot: the sessions of both parties and the closee nonce each sent in its shutdown
+		// (sendShutdownEvents: RemoteMusigSession.ClosingNonce)
+		type sessions struct{ local, remote *c17Musig }
+		sess := map[string]sessions{}
+		closeeNonce := map[string]fn.Option[lnwire.Musig2Nonce]{"A": fn.None[lnwire.Musig2Nonce](), "B": fn.None[lnwire.Musig2Nonce]()}
+		if ctype.IsTaproot() {
+			for p, lc := range lcs {
+				sess[p] = sessions{&c17Musig{channel: lc}, &c17Musig{channel: lc}}
+				n, err := sess[p].remote.ClosingNonce()
+				if err != nil {
+					t.Fatal(err)
+				}
+				closeeNonce[p] = fn.Some(lnwire.Musig2Nonce(n.PubNonce))
+			}
+		}
+
 		// the two real state machines, started in ClosingNegotiation as after shutdown + flush
 		ms := map[string]*c17Machine{}
 		for p, lc := range lcs {
@@ -506,6 +527,10 @@ func TestVerifC17RbfMulti(t *testing.T) {
 					RemoteDeliveryScript: tbl[c17Other(p)][0],
 				},
 				ShutdownBalances: ShutdownBalances{LocalBalance: c.LocalBalance, RemoteBalance: c.RemoteBalance},
+				NonceState: NonceState{
+					LocalCloseeNonce:  closeeNonce[p],
+					RemoteCloseeNonce: closeeNonce[c17Other(p)],
+				},
 			}
 			first := &ClosingNegotiation{
 				PeerState: lntypes.Dual[AsymmetricPeerState]{
@@ -524,6 +549,9 @@ func TestVerifC17RbfMulti(t *testing.T) {
 				FeeEstimator: c17RbfEstimator{},
 				ChanObserver: c17Observer{},
 				CloseSigner:  lc,
+			}
+			if ctype.IsTaproot() {
+				env.LocalMusigSession, env.RemoteMusigSession = sess[p].local, sess[p].remote
 			}
 			d := &c17Daemon{msgs: make(chan lnwire.Message, 16), txs: make(chan *wire.MsgTx, 16)}
 			rep := &c17Reporter{errs: make(chan error, 4)}
